@@ -962,8 +962,22 @@ func genC13(g *G, sc *Scenario, tier string) {
 	for i := 0; i < n; i++ {
 		x := g.r.Float64()
 		switch {
-		case x < 0.35:
+		case x < 0.27:
 			sc.Ops = append(sc.Ops, Op{K: "nsid", S: g.c13URI()})
+		case x < 0.35:
+			u := g.c13URI()
+			if g.P(0.5) {
+				fresh++
+				u = fmt.Sprintf("http://looked%d.example.com/up/%s", fresh, g.Pick([]string{"k1", "k2", "Name-With.Dots"}))
+			}
+			sc.Ops = append(sc.Ops, Op{K: "lookupURI", S: u})
+			if g.P(0.5) {
+				// the same namespace is then used by a write, and the hub is stopped and started
+				sc.Ops = append(sc.Ops, Op{K: "batch", DS: g.Pick(sc.Datasets), Ents: []Ent{{"id": u, "props": map[string]any{MkS + "a0": g.scalar()}, "refs": map[string]any{}}}})
+				if g.P(0.6) {
+					sc.Ops = append(sc.Ops, Op{K: "restart"})
+				}
+			}
 		case x < 0.43:
 			sc.Ops = append(sc.Ops, Op{K: "restart"})
 		case x < 0.55:
